@@ -133,6 +133,8 @@ extern "C" int LLVMFuzzerTestOneInput(const uint8_t* data, size_t size) {
         if (b == 0xfd) b = in.next();
         fzd.lastRx = std::max(fzd.lastRx + SYM, g.now);
         fzd.pushAt(fzd.lastRx, b);    // transport level byte (for the enhanced device: an adapter frame byte)
+        // the two bytes of an adapter frame travel together (nothing else gets in between)
+        if (fzd.enhanced && (b & 0xc0) == 0xc0 && in.pos < in.n && (in.p[in.pos] & 0xc0) == 0x80) fzd.pushAt(fzd.lastRx, in.next());
       }
     };
     g.pump = [&](int64_t) { feed(); };
@@ -169,7 +171,7 @@ extern "C" int LLVMFuzzerTestOneInput(const uint8_t* data, size_t size) {
       auto& m = lis.msgs[i];
       if (m.dir == md_recv && m.master == std::vector<uint8_t>{0x10, 0x08, 0xb5, 0x09, 0x02, 0x0d, 0x01} && m.slave == std::vector<uint8_t>{0x01, 0x65}) found = true;
     }
-    if (!found && getenv("VERIF_FUZZ_VERBOSE")) {
+    if ((!found && getenv("VERIF_FUZZ_VERBOSE")) || getenv("VERIF_FUZZ_TRACE")) {
       std::string sts; for (auto& x : lis.states) sts += std::to_string((int)x.first) + ":" + std::to_string((int)x.second) + " ";
       fprintf(stderr, "STATES %s\nDIAG ", sts.c_str()); for (auto& x : handler.diag) fprintf(stderr, "%s|", x.c_str());
       fprintf(stderr, "\nRX "); for (auto& x : g.rxlog) fprintf(stderr, "%02x@%lld ", x.b, (long long)((x.t / 1000000) % 1000000));
